@@ -6,6 +6,14 @@ stable once set - A-PROC; the contracts never claim that a survivor is *still* r
 """
 from pyvc.contracts import contract
 from pyvc.types import record
+from pyvc.native import Rec
+
+
+def _gen_procs(rng, size):
+    n = rng.randint(0, size + 2)
+    return dict(process_list=[Rec(pid=i, exitcode=rng.choice([None, None, 0, 0, 1, -9, 3]))
+                              for i in range(n)])
+
 
 record('Proc', pid='Int', exitcode='Opt[Int]')
 
@@ -14,6 +22,8 @@ M = 'cell_type_mapper.utils.multiprocessing_utils.'
 contract(
     M + 'winnow_process_list',
     properties=['C14', 'C04'],
+    native=dict(gen=_gen_procs),
+    assumptions=['A-PROC: Process.exitcode is None while running, stable once set, non-zero for every abnormal termination; distinct processes have distinct pids'],
     params=dict(process_list='List[Proc]'),
     returns='List[Proc]', returns_alias='process_list', mutates=['process_list'],
     locals=dict(to_pop='List[Int]'),
@@ -46,5 +56,42 @@ contract(
             "all(p in old(process_list) for p in process_list)",
             "all(implies(p not in process_list, p.exitcode is not None and p.exitcode == 0) "
             "for p in old(process_list))"],
+    },
+)
+
+
+def _gen_proc_dict(rng, size):
+    n = rng.randint(0, size + 2)
+    return dict(process_dict={f"k{i}": Rec(pid=i, exitcode=rng.choice([None, None, 0, 0, 1, -9]))
+                              for i in range(n)})
+
+
+contract(
+    M + 'winnow_process_dict',
+    properties=['C14', 'C04'],
+    native=dict(gen=_gen_proc_dict),
+    params=dict(process_dict='Dict[Name,Proc]'),
+    returns='Dict[Name,Proc]', returns_alias='process_dict', mutates=['process_dict'],
+    raises={'RuntimeError': ('iff', "any(process_dict[k].exitcode is not None and "
+                                    "process_dict[k].exitcode != 0 for k in process_dict)")},
+    ensures=[
+        "all(k in old(process_dict) and result[k] == old(process_dict)[k] for k in result)",
+        "all(implies(k not in result, old(process_dict)[k].exitcode is not None "
+        "and old(process_dict)[k].exitcode == 0) for k in old(process_dict))",
+        "all(result[k].exitcode is None for k in result)",
+    ],
+    loops={
+        0: ["all(k in old(process_dict) for k in process_dict)",
+            "all(process_dict[k] == old(process_dict)[k] for k in process_dict)",
+            # keys not yet visited are all still there
+            "all(implies(_it[j] in old(process_dict), _it[j] in process_dict) "
+            "for j in range(_i, len(_it)))",
+            "all(implies(k not in process_dict, old(process_dict)[k].exitcode is not None and "
+            "old(process_dict)[k].exitcode == 0) for k in old(process_dict))",
+            "all(implies(k in process_dict, process_dict[k].exitcode is None) "
+            "for k in _it[:_i])" if False else
+            "all(implies(_it[j] in process_dict, process_dict[_it[j]].exitcode is None) "
+            "for j in range(0, _i))",
+            ],
     },
 )
